@@ -253,7 +253,7 @@ def layout_cases(ctx):
 
 
 # ---- (b)-(d) random ------------------------------------------------------------------------------------------------
-LIT_ALPHA = list('"\'\'",,  \;:ñéü日本ΩaZ09-_/()[]{}<>#&%$?+~^|`') + ['""', "''", '" "', ', ', '\\t', '\\n', '""""']
+LIT_ALPHA = list('"\'\'",,  \;:ñéü日本ΩaZ09-_/()[]{}<>#&%$?+~^|`') + ['""', "''", '" "', ', ', '\\t', '\\n', '""""', '\u2028', '\x0c', '\x85', '\u2029', '\x1c', '\x0b']
 
 
 @st.composite
